@@ -111,17 +111,22 @@ pub(crate) mod proofs {
                 assert!(counters_are(&q, RingState { len: s.len + 1, ..s }), "accepted: seq' = seq.push(x), counters otherwise unchanged");
                 let idx = (s.origin.wrapping_add(s.len)) as usize % N;
                 assert!(after[idx] == x,                                   "accepted: payload stored at the tail slot");
-                let k: usize = kani::any(); kani::assume(k < N && k != idx);
-                assert!(after[k] == before[k],                             "accepted: frame - no other slot written");
+                let k: usize = kani::any();
+                if k < N && k != idx {
+                    assert!(after[k] == before[k],                             "accepted: frame - no other slot written");
+                }
             } else {
                 kani::cover!(s.resv > 0, "reject with reservations outstanding");
                 kani::cover!(s.resv == 0, "reject with a full queue");
                 assert!(rejected == Some(x),                               "rejected: payload handed back unchanged");
                 assert!(len_after.is_none(),                               "rejected: no length reported");
                 assert!(counters_are(&q, s),                               "rejected: all four counters unchanged (C16 frame)");
-                let k: usize = kani::any(); kani::assume(k < N);
-                assert!(after[k] == before[k],                             "rejected: buffer unchanged");
+                let k: usize = kani::any();
+                if k < N {
+                    assert!(after[k] == before[k],                             "rejected: buffer unchanged");
+                }
             }
+            kani::cover!(true, "end of harness reachable (vacuity guard)");
         }
 
         // ---- publish (setter variant) -----------------------------------------------------------------------
@@ -147,17 +152,22 @@ pub(crate) mod proofs {
                 assert!(counters_are(&q, RingState { len: s.len + 1, ..s }), "accepted: seq' = seq.push(x)");
                 let idx = (s.origin.wrapping_add(s.len)) as usize % N;
                 assert!(after[idx] == x,                                    "accepted: setter wrote the tail slot");
-                let k: usize = kani::any(); kani::assume(k < N && k != idx);
-                assert!(after[k] == before[k],                              "accepted: frame");
+                let k: usize = kani::any();
+                if k < N && k != idx {
+                    assert!(after[k] == before[k],                              "accepted: frame");
+                }
             } else {
                 assert!(ret.is_some(),                                      "rejected: setter handed back");
                 assert!(setter_calls.get() == 0,                            "rejected: setter un-invoked");
                 assert!(report_calls.get() == 0,                            "rejected: no length reported");
                 assert!(full_calls.get() == 1,                              "rejected: full reported once, no retry when it answers false");
                 assert!(counters_are(&q, s),                                "rejected: counters unchanged");
-                let k: usize = kani::any(); kani::assume(k < N);
-                assert!(after[k] == before[k],                              "rejected: buffer unchanged");
+                let k: usize = kani::any();
+                if k < N {
+                    assert!(after[k] == before[k],                              "rejected: buffer unchanged");
+                }
             }
+            kani::cover!(true, "end of harness reachable (vacuity guard)");
         }
 
         // ---- C01/C02: consume_movable --------------------------------------------------------------------------
@@ -177,8 +187,11 @@ pub(crate) mod proofs {
                 assert!(got.is_none(),                                       "empty: None");
                 assert!(counters_are(&q, s),                                 "empty: counters unchanged");
             }
-            let k: usize = kani::any(); kani::assume(k < N);
-            assert!(after[k] == before[k],                                   "consume never writes the buffer");
+            let k: usize = kani::any();
+            if k < N {
+                assert!(after[k] == before[k],                                   "consume never writes the buffer");
+            }
+            kani::cover!(true, "end of harness reachable (vacuity guard)");
         }
 
         // ---- C02: length query --------------------------------------------------------------------------------
@@ -189,6 +202,7 @@ pub(crate) mod proofs {
             assert!(q.available_elements_count() == s.len as usize,          "pending count == |seq|");
             assert!(q.max_size() == N,                                       "max_size == BUFFER_SIZE");
             assert!(counters_are(&q, s),                                     "query changes nothing");
+            kani::cover!(true, "end of harness reachable (vacuity guard)");
         }
 
         // ---- C08/C15/C16: reserve ----------------------------------------------------------------------------
@@ -214,8 +228,11 @@ pub(crate) mod proofs {
                 assert!(counters_are(&q, s),                                 "reserve at capacity: counters restored");
             }
             let after = buffer_of(&q);
-            let k: usize = kani::any(); kani::assume(k < N);
-            assert!(after[k] == before[k],                                   "reserve never writes the buffer");
+            let k: usize = kani::any();
+            if k < N {
+                assert!(after[k] == before[k],                                   "reserve never writes the buffer");
+            }
+            kani::cover!(true, "end of harness reachable (vacuity guard)");
         }
 
         // ---- C08/C15: publish a reservation by index (lap reconstruction) ---------------------------------
@@ -243,8 +260,11 @@ pub(crate) mod proofs {
             kani::cover!(j == 0 && s.origin.wrapping_add(s.len) < s.origin, "publish by index right after the wrap");
             kani::cover!(j == 0 && id / (N as u32) > 0, "publish by index on a later lap");
             let after = buffer_of(&q);
-            let k: usize = kani::any(); kani::assume(k < N);
-            assert!(after[k] == before[k],                                   "index publish never writes the buffer");
+            let k: usize = kani::any();
+            if k < N {
+                assert!(after[k] == before[k],                                   "index publish never writes the buffer");
+            }
+            kani::cover!(true, "end of harness reachable (vacuity guard)");
         }
 
         // ---- C08/C15: cancel a reservation by index -----------------------------------------------------------
@@ -266,8 +286,11 @@ pub(crate) mod proofs {
             }
             kani::cover!(j == s.resv - 1 && id == u32::MAX, "cancel the reservation whose id is u32::MAX (enqueuer_tail wrapped to 0)");
             let after = buffer_of(&q);
-            let k: usize = kani::any(); kani::assume(k < N);
-            assert!(after[k] == before[k],                                   "index cancel never writes the buffer");
+            let k: usize = kani::any();
+            if k < N {
+                assert!(after[k] == before[k],                                   "index cancel never writes the buffer");
+            }
+            kani::cover!(true, "end of harness reachable (vacuity guard)");
         }
 
         // ---- C08/C13: index <-> reference conversions are inverse ------------------------------------------
@@ -279,6 +302,7 @@ pub(crate) mod proofs {
             let r = q.slot_ref_from_slot_index(i);
             assert!(*r == before[i as usize],                                "ref_from_index yields buffer[i]");
             assert!(q.slot_index_from_slot_ref(r) == i,                      "index_from_ref(ref_from_index(i)) == i");
+            kani::cover!(true, "end of harness reachable (vacuity guard)");
         }
 
         // ---- C01: peek_remaining == seq ----------------------------------------------------------------------
@@ -292,6 +316,7 @@ pub(crate) mod proofs {
             let expected = before[(s.origin.wrapping_add(k as u32)) as usize % N];
             let got = if k < a.len() { a[k] } else { b[k - a.len()] };
             assert!(got == expected,                                         "peek: concatenation equals seq");
+            kani::cover!(true, "end of harness reachable (vacuity guard)");
         }
     } )* } }
 
@@ -342,6 +367,7 @@ pub(crate) mod proofs {
             assert!(DROPS.load(SeqCst) == base + c,                          "each consumed payload dropped once by its owner");
             drop(q);
             assert!(DROPS.load(SeqCst) == base + len,                        "teardown drops exactly the leftovers, once each; initial filler slots are never dropped");
+            kani::cover!(true, "end of harness reachable (vacuity guard)");
         }
     } )* } }
     drop_proofs! {
